@@ -550,6 +550,9 @@ func (m *ConnectMessage) decodeMessage(src []byte) (int, error) {
 		return total, ErrIdentifierRejected
 	}
 
+	// a message that was used before keeps nothing of the optional fields of its earlier packet
+	m.willTopic, m.willMessage, m.username, m.password = nil, nil, nil, nil
+
 	if m.WillFlag() {
 		m.willTopic, n, err = readLPBytes(src[total:])
 		total += n
